@@ -14,18 +14,22 @@ value of the integer type — and every string.  No bound anywhere.
 -/
 namespace ShootVerif.Enum
 
-/-- the stringer-style loop of makeStr collects exactly the declared constants of T (grammar: no
-    spec gets type T through a typed expression) -/
-theorem C04_collect (i : Input) (h : grammarOK i = true) : collect i.T i.blocks = i.decl :=
-  collect_eq_declared _ _ (grammar_of_grammarOK h)
+/-- the stringer-style loop of makeStr — over every const declaration of the package, those inside
+    function bodies included — collects exactly the declared (package-level) constants of T, for
+    every input of the syntactic grammar: no spec gets type T through a typed expression; a type
+    that is not a plain identifier (`pkg.T`, `(T)`) is not T and is not followed by an empty spec;
+    no const declaration inside a function names T -/
+theorem C04_collect (i : Input) (h : grammarOK i = true) : collect i.T i.allBlocks = i.decl :=
+  collect_of_grammarOK h
 
 /-- on WF — negative values and values above MaxInt64 included — the run emits the table the
     specification describes, and the emitted map literals / table references compile -/
 theorem C04_generates (i : Input) (h : WF i = true) :
-    gen i.kind i.T i.blocks = .file (specSorted i.decl) ∧ compiles false i.T (specSorted i.decl) = true := by
+    gen i.kind i.T i.allBlocks = .file (specSorted i.decl) ∧
+    compiles false i.T i.decl (specSorted i.decl) = true := by
   have f := WF.facts h
   have hp : (specSorted i.decl).Perm i.decl := sortBy_perm _ _
-  have ht : sortC i.kind (collect i.T i.blocks) = specSorted i.decl := tables_eq h
+  have ht : sortC i.kind (collect i.T i.allBlocks) = specSorted i.decl := tables_eq h
   constructor
   · unfold gen
     simp only [ht]
@@ -37,7 +41,9 @@ theorem C04_generates (i : Input) (h : WF i = true) :
   · unfold compiles
     have h1 : (valuesT (specSorted i.decl)).Nodup := (hp.map _).nodup_iff.mpr f.ndVals
     have h2 : (stringsT i.T (specSorted i.decl)).Nodup := (hp.map _).nodup_iff.mpr f.ndNames
-    simp only [h1, h2, decide_true, Bool.true_and]
+    have h3 : (specSorted i.decl).all (fun c => i.decl.contains c) = true := by
+      rw [List.all_eq_true]; intro c hc; simpa using hp.mem_iff.mp hc
+    simp only [h1, h2, h3, decide_true, Bool.true_and]
     decide
 
 /-- the table holds exactly the declared constants, in strictly ascending order of value -/
